@@ -36,6 +36,9 @@ pub struct ObservedTrees {
 	/// key index -> canonical digest of the whole tree
 	pub roots: BTreeMap<usize, u64>,
 	pub entries: Option<u64>,
+	/// key index -> stored reference count of the root entry (columns with counted roots only;
+	/// read from the table files, which hold everything right after an open)
+	pub root_rc: Option<BTreeMap<usize, u32>>,
 }
 
 fn rt<'a>(ex: &'a mut Exec, col: u8) -> &'a mut TreeRt {
@@ -455,7 +458,38 @@ pub fn observe(ex: &mut Exec, col: u8) -> Result<ObservedTrees, String> {
 		}
 	}
 	out.entries = ex.db().get_num_column_value_entries(col).ok();
+	let (_, rc_roots, _) = kind_flags(ex, col);
+	if rc_roots && ex.pipeline_idle() {
+		out.root_rc = Some(stored_root_counts(ex, col, &out.roots.keys().cloned().collect::<Vec<_>>()));
+	}
 	Ok(out)
+}
+
+/// Reference counts of the root entries as stored in the table files (only meaningful while
+/// nothing is pending in the pipeline).
+pub fn stored_root_counts(ex: &Exec, col: u8, which: &[usize]) -> BTreeMap<usize, u32> {
+	let dir = ex.live.clone();
+	let salt = ex.cfg.salt();
+	let keys = &ex.col_cfgs[col as usize].keys;
+	let mut out = BTreeMap::new();
+	crate::simdisk::muted(|| {
+		let tables = crate::structural::load_tables(&dir, col as usize);
+		let indexes = crate::structural::load_indexes(&dir, col as usize);
+		for k in which {
+			let h = crate::structural::hash_key(&keys[*k], &salt, false);
+			'ix: for ix in indexes.iter().rev() {
+				for (tier, off) in ix.lookup(&h) {
+					if let Ok(s) = read_stored(&tables, tier, off, true, true) {
+						if s.key26.as_deref() == Some(&h[6..32]) {
+							out.insert(*k, s.rc);
+							break 'ix
+						}
+					}
+				}
+			}
+		}
+	});
+	out
 }
 
 pub fn matches(ex: &Exec, col: u8, o: &ObservedTrees, m: &TreeModel) -> Result<(), String> {
@@ -466,6 +500,13 @@ pub fn matches(ex: &Exec, col: u8, o: &ObservedTrees, m: &TreeModel) -> Result<(
 		let got = o.roots.get(&k).cloned();
 		if want != got {
 			return Err(format!("col {col} tree key#{k}: db {:?}, state {:?}", got.is_some(), want.is_some()))
+		}
+		if let (Some(rcs), Some((_, cnt))) = (&o.root_rc, m.roots.get(key)) {
+			if let Some(rc) = rcs.get(&k) {
+				if rc != cnt {
+					return Err(format!("col {col} tree key#{k}: stored root count {rc}, state {cnt}"))
+				}
+			}
 		}
 	}
 	Ok(())
@@ -719,6 +760,23 @@ pub fn structural(
 	if let ColModel::Tree(m) = &ex.cur[col] {
 		if m.roots.len() as u64 != roots {
 			out.push(("live-count".into(), format!("col {col}: {roots} roots reachable through the index, model has {}", m.roots.len())));
+		}
+		if rc_roots {
+			let keys = &ex.col_cfgs[col].keys;
+			let which: Vec<usize> = (0..keys.len()).filter(|k| m.roots.contains_key(&keys[*k])).collect();
+			let rcs = stored_root_counts(ex, col as u8, &which);
+			for k in which {
+				let want = m.roots[&keys[k]].1;
+				if let Some(got) = rcs.get(&k) {
+					if *got != want {
+						out.push((
+							"root-count".into(),
+							format!("col {col} tree key#{k}: stored reference count of the root is {got}, model has {want}"),
+						));
+						break
+					}
+				}
+			}
 		}
 		if !append_only && m.nodes.len() != visited_nodes.len() {
 			out.push((
